@@ -882,6 +882,18 @@ func (run *c08Run) sweep() {
 	for _, d := range c08SeedDocs {
 		hand = append(hand, [2]string{c08SeedSchema, d})
 	}
+	// the introspection depth limit with one fragment spread at several depths, in both orders, with
+	// and without an intermediate fragment (a memo that forgets the depth it cleared a fragment at)
+	for _, d := range []string{
+		"{ __schema { types { ...T fields { type { fields { type { ...T } } } } } } } fragment T on __Type { fields { name } }",
+		"{ __schema { types { fields { type { fields { type { ...T } } } } ...T } } } fragment T on __Type { fields { name } }",
+		"{ __schema { types { ...T } } } fragment T on __Type { fields { type { ...U } } } fragment U on __Type { fields { type { fields { name } } } }",
+		"{ __schema { types { ...U fields { type { ...T } } } } } fragment T on __Type { ...U fields { type { ...U } } } fragment U on __Type { fields { name } }",
+		"{ __type(name: \"Query\") { ...T fields { type { ...T interfaces { ...T } } } } } fragment T on __Type { fields { type { name } } }",
+		"{ __schema { types { ...T ...T fields { ...F } } } } fragment T on __Type { inputFields { name } } fragment F on __Field { type { ...T possibleTypes { ...T } } }",
+	} {
+		hand = append(hand, [2]string{c08SeedSchema, d})
+	}
 	run.batch(hand, "hand-written")
 	for k := 1; k <= 3; k++ {
 		var adv [][2]string
